@@ -2,7 +2,7 @@
 
 from typing import List, Mapping, Optional, Sequence, Tuple, TypeVar, Union
 
-from .._utils import DefaultOrderedDict, OrderedDict, deduplicate, find_one
+from .._utils import DefaultOrderedDict, OrderedDict, find_one
 from ..exc import UnknownEnumValue, UnknownType, ValidationError
 from ..lang import ast as _ast
 from ..lang.visitor import DispatchingVisitor
@@ -38,10 +38,12 @@ LMap = Mapping[str, List[T]]
 OptList = List[Optional[T]]
 
 VariableUsages = MMap[
-    Tuple[
-        _ast.Variable,
-        Optional[Union[EnumType, ScalarType, InputObjectType]],
-        Optional[Union[_ast.Argument, _ast.Field]],
+    List[
+        Tuple[
+            _ast.Variable,
+            Optional[Union[EnumType, ScalarType, InputObjectType]],
+            Optional[Union[_ast.Argument, _ast.Field]],
+        ]
     ]
 ]
 
@@ -175,24 +177,27 @@ class VariablesCollector(ValidationVisitor):
         if self._in_var_def:
             pass
         elif self._op is not None:
-            self._op_variables[self._op][var] = (  # type: ignore
-                node,
-                input_type,
-                input_value_def,
-            )
+            self._op_variables[self._op].setdefault(  # type: ignore
+                var, []
+            ).append((node, input_type, input_value_def))
         elif self._fragment is not None:
-            self._fragment_variables[self._fragment][var] = (  # type: ignore
-                node,
-                input_type,
-                input_value_def,
-            )
+            self._fragment_variables[self._fragment].setdefault(  # type: ignore
+                var, []
+            ).append((node, input_type, input_value_def))
 
     def _flatten_fragments(self):
-        for parent, children in self._fragment_fragments.items():
-            for child in deduplicate(children):
-                for op in self._op_fragments.keys():
-                    if parent in self._op_fragments[op]:
-                        self._op_fragments[op].append(child)
+        # Transitive closure of the fragments spread by each operation,
+        # independent of the order in which fragments are defined.
+        for fragments in self._op_fragments.values():
+            seen = set(fragments)
+            queue = list(fragments)
+            while queue:
+                parent = queue.pop(0)
+                for child in self._fragment_fragments.get(parent, ()):
+                    if child not in seen:
+                        seen.add(child)
+                        fragments.append(child)
+                        queue.append(child)
 
     def leave_document(self, _):
         self._flatten_fragments()
